@@ -71,6 +71,11 @@ pub trait Node: Flat {
     fn try_default(_bytes: &mut [u8]) -> Option<Result<&mut Self, Error>> {
         None
     }
+    /// `FlatWrap::default_in_place` over an owned, aligned buffer, observed through `Deref`,
+    /// then modified through `DerefMut` (no-op edit) and unwrapped again
+    fn try_wrap_default(_bytes: flatty::AlignedBytes) -> Option<Result<(crate::dynshape::Observation, Vec<u8>), Error>> {
+        None
+    }
     /// bytes of `Default::default()` for sized types with a `Default` impl
     fn native_default_bytes() -> Option<Vec<u8>> {
         None
@@ -105,6 +110,14 @@ macro_rules! impl_sized_info {
 #[macro_export]
 macro_rules! impl_flex_push_default {
     () => {
+        fn try_wrap_default(bytes: ::flatty::AlignedBytes) -> Option<Result<($crate::dynshape::Observation, Vec<u8>), ::flatty::Error>> {
+            Some(::flatty::FlatWrap::<Self, ::flatty::AlignedBytes>::default_in_place(bytes).map(|mut w| {
+                let o = $crate::dynshape::observe(&*w);
+                let _: &mut Self = &mut *w;
+                let inner = w.into_inner();
+                (o, inner.to_vec())
+            }))
+        }
         fn flex_push_default<LL: $crate::node::LenNode>(v: &mut ::flatty::FlexVec<Self, LL>) -> Option<Result<(), ::flatty::Error>> {
             Some(v.push_default().map(|_| ()))
         }
